@@ -184,6 +184,9 @@ let fmt_build_err = function
 let run_create toks =
   match toks with
   | ["classify"; gt] -> add (fmt_gres (classify (gt_of_string gt)))
+  | ["smapfile"; hex] ->
+    let m = build_map (parse_samples_file (bytes_of_hex hex)) in
+    add ("OK " ^ (if m = [] then "-" else S.concat "," (List.map (fun (n, id) -> hex_of_bytes n ^ ":" ^ zs id) m)))
   | ["sites"; cols; samples; proj; recs] ->
     let cols = List.map name_of_string (split_list cols) in
     (match build_reader cols (parse_samples samples) (parse_project proj) with
@@ -276,7 +279,7 @@ let run_case line =
      | "get" | "getaxis" | "view" | "axisiter" | "indices" | "sum" -> run_array toks
      | "fold" | "marg" | "keep" | "project" | "pmf" | "binom" -> run_spectrum toks
      | "npyw" | "npyr" | "textw" | "read" | "fmt" | "parse" | "detect" -> run_bytes toks
-     | "classify" | "sites" | "create" -> run_create toks
+     | "classify" | "sites" | "create" | "smapfile" -> run_create toks
      | "stat" | "viewrun" -> run_stat toks
      | "cnpy" | "cwrite" -> run_stream toks
      | _ -> add ("UNKNOWN-OP " ^ op))
